@@ -389,10 +389,20 @@ Section LiveWorldMulti.
     /\ shof (m_dest m) <> sh /\ mmsg_n m = multi_n_snd i
     (* the triples of the message are the encodings of the travelling entries *)
     /\ exists lst, multi_snd_post (env_at c sh) i lst (mk_state m0) o s'
-                   /\ mmsg_triples m = map (raw_of (env_at c sh)) lst.
+         /\ mmsg_triples m = map (raw_of (env_at c sh)) lst
+         (* ... which, under the F4b hypothesis, are the sender's entries with Value = the requested quantity (same
+            metadata, same properties: not frozen unless return-after-error / system contract); the message credits
+            exactly the debits *)
+         /\ (triples_consistent (env_at c sh) (mk_state m0) (i_caller i) (multi_snd_triples i) ->
+             credits c m = debit_list (multi_snd_triples i)
+             /\ Forall2 (fun x y => fst y = rt_tok x
+                           /\ exists t0, tok_at (env_at c sh) (mk_state m0) (i_caller i) (rt_cell x) = Some t0
+                                /\ snd y = set_value t0 (Some (rt_qty x))
+                                /\ (i_rae i = false -> i_caller i <> SC -> frozen_props (t_props t0) = false))
+                  (multi_snd_triples i) lst).
   Proof.
     intros Hor H Hin. pose proof H as Hex. rewrite exec_multi_transfer in H.
-    pose proof (origin_multi_caller_is_rcpt sh i _ _ _ Hor H) as Heq. destruct Hor as (Hcal & Hsnd & Hdst).
+    pose proof (origin_multi_caller_is_rcpt sh i _ _ _ Hor H) as Heq. pose proof Hor as Hor'. destruct Hor as (Hcal & Hsnd & Hdst).
     assert (Hsame : multi_same (env_at c sh) i = (shof (argn i 0) =? sh)%N).
     { unfold multi_same. cbn [self_shard shard_of env_at]. apply N.eqb_sym. }
     destruct (multi_sender_post (env_at c sh) Hc _ _ _ _ H Heq) as (lst & Hp).
@@ -423,11 +433,69 @@ Section LiveWorldMulti.
       unfold mmsg_n. rewrite Hn. apply (multi_sender_count_fits (env_at c sh) i _ _ _ H Heq). }
     split; [rewrite <- Hm; reflexivity|]. split; [exact Hdest|]. split; [rewrite <- Hm; reflexivity|]. split; [exact Hmcal|].
     split; [rewrite Hdest; exact Ed|]. split; [exact Hn|].
-    exists lst. split; [exact Hp|].
-    unfold mmsg_triples, multi_dst_triples. fold (mmsg_n m). unfold mmsg_n. rewrite Hn, <- Hlen. change 0%N with (N.of_nat 0).
-    apply (multi_triples_out_args (env_at c sh) (mmsg_input m) lst [u64_bytes (multi_n_snd i)]
-             (skipn (N.to_nat (multi_min 2 (multi_n_snd i))) (i_args i)) 0); [|reflexivity].
-    change (i_args (mmsg_input m)) with (m_args m). rewrite Hargs. reflexivity.
+    exists lst. split; [exact Hp|]. split.
+    { unfold mmsg_triples, multi_dst_triples. fold (mmsg_n m). unfold mmsg_n. rewrite Hn, <- Hlen. change 0%N with (N.of_nat 0).
+      apply (multi_triples_out_args (env_at c sh) (mmsg_input m) lst [u64_bytes (multi_n_snd i)]
+               (skipn (N.to_nat (multi_min 2 (multi_n_snd i))) (i_args i)) 0); [|reflexivity].
+      change (i_args (mmsg_input m)) with (m_args m). rewrite Hargs. reflexivity. }
+    intros Hcons. split.
+    { assert (Hcc : call_consistent_at c m0 sh C.BuiltInFunctionMultiESDTNFTTransfer i).
+      { split; [intros e; discriminate e|intros _; exact Hcons]. }
+      pose proof (emitted_message_carries_debit c Hc sh m0 _ i id o s' is_transfer_multi Hor' Hcc Hex) as He.
+      unfold transfer_dest, transfer_debits in He. rewrite fn_multi_ne_esdt, fn_multi_ne_nft in He.
+      apply N.eqb_neq in Ed. rewrite Ed in He. destruct He as (m' & Hcol' & Hcr & _).
+      rewrite Hcol in Hcol'. inversion Hcol'. exact Hcr. }
+    destruct Hp. destruct mp_steps as (s0 & s1 & Q0 & Hs & Q1).
+    pose proof (silent_consistent (env_at c sh) _ _ _ _ Q0 Hcons) as Hcons0.
+    destruct (snd_steps_spec (env_at c sh) _ _ _ _ _ _ _ _ _ mp_dst_ne Hs Hcons0) as (_ & Hf & _).
+    { intros h. rewrite Hsame in h. discriminate h. }
+    destruct (snd_steps_entries (env_at c sh) _ _ _ _ _ _ _ _ _ mp_dst_ne Hs Hcons0 s0 (same_upto_value_refl (env_at c sh) _ _)) as [Hf2 _].
+    rewrite Hsame in Hf. clear - Hf Hf2 Q0.
+    induction Hf2 as [|x y l1 l2 (t0 & Ht0 & Hy & Hfr) Hf2 IH]; inversion Hf as [|x' y' l1' l2' Hxy Hf']; subst; constructor; [|apply IH; exact Hf'].
+    destruct Hxy as (Hfst & _ & _ & Hv & _ & _ & _ & Hq). split; [exact Hfst|].
+    rewrite (silent_tok_at (env_at c sh) _ _ _ _ Q0) in Ht0. exists t0. split; [exact Ht0|].
+    split; [rewrite Hy, Hv, (Hq eq_refl); reflexivity|exact Hfr].
+  Qed.
+
+  (* ---- composition: transfer, (anything that leaves the sender's holdings alone), rejected delivery, refund ---- *)
+  Theorem multi_rejected_refund_restores sh m0 i id0 o s1 m w id gas gas' :
+    let E := env_at c sh in
+    let s := mk_state (shard_accts w sh) in
+    (* the accepted cross-shard transfer, F4b hypothesis as in the conservation theorem *)
+    origin_call c sh i -> triples_consistent E (mk_state m0) (i_caller i) (multi_snd_triples i) ->
+    exec E C.BuiltInFunctionMultiESDTNFTTransfer i (mk_state m0) = (Ok o, s1) ->
+    In m (collect c sh C.BuiltInFunctionMultiESDTNFTTransfer i id0 o) ->
+    (* a later world: the message is still in flight and every triple finds a compatible entry at the sender (no flag is
+       looked at: return-after-error) *)
+    WInv c w -> find_msg (inflight w) id = Some m ->
+    (shof (m_dest m) <? wc_nshards c)%N = true -> (sh <? wc_nshards c)%N = true ->
+    dest_ready E (i_caller i) false true (mmsg_triples m) s ->
+    (forall o' s', exec (env_at c (shof (m_dest m))) (m_fn m) (deliver_input c m (shof (m_dest m)) gas)
+                     (mk_state (shard_accts w (shof (m_dest m)))) <> (Ok o', s')) ->
+    let w2 := wstep c (wstep c w (ODeliver id gas)) (ORefund id gas') in
+    inflight w2 = drop_msg (inflight w) id /\ nat_in id (failed w2) = false
+    (* every cell of the sender whose holding is what the transfer left is back to its holding before the transfer *)
+    /\ (forall k, balance E s (i_caller i) k = balance E s1 (i_caller i) k ->
+                  wbal c w2 (i_caller i) k = balance E (mk_state m0) (i_caller i) k)
+    /\ forall k, total c k w2 = total c k w.
+  Proof.
+    intros E s Hor Hcons Hex Hin Hinv Hfind Hshd Hshs Hr Hrej.
+    destruct (emitted_multi_wf sh m0 i id0 o s1 m Hor Hex Hin) as (Hem & _ & _ & Hmd & Hms & _ & Hne & _ & lst & _ & _ & Hcr).
+    destruct (Hcr Hcons) as [Hcred _].
+    pose proof Hor as (Hcal & _).
+    assert (Hshs' : (shof (m_sender m) <? wc_nshards c)%N = true) by (rewrite Hms, Hcal; exact Hshs).
+    assert (Hr' : dest_ready (env_at c (shof (m_sender m))) (m_sender m) false true (mmsg_triples m)
+                    (mk_state (shard_accts w (shof (m_sender m))))) by (rewrite Hms, Hcal; exact Hr).
+    destruct (rejected_then_refund_multi w id gas gas' m Hinv Hfind Hem Hshd Hshs' Hrej Hr') as (_ & _ & _ & H4 & H5 & Hb & Ht).
+    cbv zeta. split; [exact H4|]. split; [exact H5|]. split; [|exact Ht].
+    intros k Hbal. rewrite Hb, Hms, beqb_refl, wbal_state, Hcal. fold E. fold s. rewrite Hbal.
+    unfold qty. rewrite Hcred.
+    pose proof Hex as Hex'. rewrite exec_multi_transfer in Hex'.
+    pose proof (origin_multi_caller_is_rcpt sh i _ _ _ Hor Hex') as Heq.
+    destruct (sender_debits_exact_multi E Hc i _ _ _ Hex Heq Hcons) with (k := k) as [_ Hd].
+    { intros h. exfalso. unfold multi_same in h. cbn [self_shard shard_of env_at E] in h. apply N.eqb_eq in h.
+      apply Hne. rewrite Hmd. unfold multi_dst. symmetry. exact h. }
+    rewrite Hd. lia.
   Qed.
 End LiveWorldMulti.
 
@@ -436,3 +504,4 @@ Print Assumptions dest_ready_distinct.
 Print Assumptions emitted_multi_wf.
 Print Assumptions deliver_accepted_multi.
 Print Assumptions rejected_then_refund_multi.
+Print Assumptions multi_rejected_refund_restores.
